@@ -1,5 +1,7 @@
 package main
 
+import "strings"
+
 // Engine family: C01 C03 C04 C09 C11 (specification: Terms.tla, Engine.tla; generators Gen*.tla; trace spec EngineTrace.tla).
 
 func init() {
@@ -21,7 +23,59 @@ func init() {
 				infra("GenCut produced no cases")
 			}
 			cases, results := c.replay("engine", r.cases, replayOpts{})
-			c.judge("engine", cases, results, func(cs, res map[string]J) string { return caseKeyIfContains(cs, `"!"`) })
+			c.judge("engine", cases, results, func(cs, res map[string]J) string {
+				if in, _ := res["input"].(string); strings.Contains(in[strings.Index(in, "p(V1)"):], "!") {
+					return in
+				}
+				return ""
+			})
+			c.exhaustive = true
+		},
+	}
+	plans["C04"] = &plan{
+		level: "model_checking",
+		rule: "TLC enumerates every skeleton [g(A),] catch((catch(G1,C1,R1), K), C2, R2) with G1 a conjunction over {generator, probe, throw(b1), throw(b(X)), fail, !, " +
+			"X is foo, undefined procedure, \\+ throw, findall(_,throw,_)}, 4 inner catchers, 3 recoveries, 5 continuations running after the inner catch exited, 3 outer catchers; " +
+			"Engine.tla predicts the events (UnwindExact, CatchIdsUnique checked in every state) and the real interpreter must reproduce them. " +
+			"distinct_nontrivial = distinct queries in which a ball is actually thrown (some event after the throw differs from plain success)",
+		assume:  []string{"the call hook reports every call port", "the context argument of error/2 is implementation defined and not compared"},
+		trusted: []string{"TLC", "Engine.tla as the reference semantics", "harness renderer/canonicaliser (jt)"},
+		run: func(c *checkCtx) {
+			r := c.mcHolds("GenCatch", "GenCatch_"+c.tier+".cfg", tlcOpts{})
+			if r.ncases == 0 {
+				infra("GenCatch produced no cases")
+			}
+			cases, results := c.replay("engine", r.cases, replayOpts{})
+			c.judge("engine", cases, results, func(cs, res map[string]J) string {
+				if in, _ := res["input"].(string); strings.Contains(in, "throw(") || strings.Contains(in, "foo") || strings.Contains(in, "undef") {
+					return in
+				}
+				return ""
+			})
+			c.exhaustive = true
+		},
+	}
+	plans["C09"] = &plan{
+		level: "model_checking",
+		rule: "TLC enumerates every history of N top-level steps over the dynamic predicate p/1 (initially p(1). p(2). p(_). p(2).): plain asserta/assertz/retract/retractall/abolish and " +
+			"failure-driven loops that update p/1 while a call to p/1, a retract/1 or a clause/2 on it is open; Engine.tla predicts every call port and the clause/2 listing after every step " +
+			"(LUV, DbStep, IdsUnique checked on every transition) and the real interpreter must reproduce them. distinct_nontrivial = distinct histories containing an update inside an open call/retract/clause",
+		assume:  []string{"retractall/1 on an undefined procedure is left open (ISO creates the procedure, the property is silent): such histories are not judged"},
+		trusted: []string{"TLC", "Engine.tla as the reference semantics", "harness renderer/canonicaliser (jt)"},
+		run: func(c *checkCtx) {
+			r := c.mcHolds("GenDb", "GenDb_"+c.tier+".cfg", tlcOpts{})
+			if r.ncases == 0 {
+				infra("GenDb produced no cases")
+			}
+			cases, results := c.replay("engine", r.cases, replayOpts{})
+			c.judge("engine", cases, results, func(cs, res map[string]J) string {
+				in, _ := res["input"].(string)
+				q := in[strings.Index(in, "?-"):]
+				if strings.Contains(q, "(p(V1) , ") || strings.Contains(q, "(retract(p(V1)) , ") || strings.Contains(q, "(clause(p(V1),true) , ") {
+					return q
+				}
+				return ""
+			})
 			c.exhaustive = true
 		},
 	}
